@@ -66,6 +66,12 @@ GLOBAL_MUTATORS = ('setdefault', 'add', 'append', 'update', 'pop', 'popitem',
                    'sort', 'reverse')
 
 
+class ArgRoots(list):
+    """roots per argument of one call site, with two facts per argument"""
+    fresh = None
+    exact = None
+
+
 class Summary(object):
     def __init__(self, fi, nparams):
         self.fi = fi
@@ -80,6 +86,10 @@ class Summary(object):
         self.failed = None
         self.raw_writes = []    # (kind, name, target, where, roots)
         self.rkinds = set()
+        self.deep = set()       # parameters mutated *below* the object
+                                # itself (a field / member / element of it);
+                                # a parameter in mutates but not here is only
+                                # changed as a container (append/pop/add/..)
         self.opaque = []        # calls of a function *value* (result of a
                                 # call, element of a container) with
                                 # argument-rooted operands: effects unknown
@@ -249,6 +259,14 @@ class Effects(object):
             pnames.append(a.vararg.arg)
         pnames += [x.arg for x in a.kwonlyargs]
         s = Summary(f, len(pnames))
+        from .interp import user_decorators
+        if isinstance(node, ast.FunctionDef) and user_decorators(node):
+            # the name is bound to what the decorator returns: the effects
+            # of that wrapper (a table it fills, ...) are not in the body
+            s.opaque.append('%s is decorated by %s: effects of the wrapper '
+                            'unknown' % (f.short(), ', '.join(
+                                ast.unparse(d) for d in
+                                user_decorators(node))))
         hooks = _SummaryHooks(f)
         I = Interp(self.prog, hooks, rule='E6', max_paths=3000)
         path = I.new_path()
@@ -325,6 +343,9 @@ class Effects(object):
                                              I.where(e.node, f.module)))
                         continue
                     note_mut(i, '%s %s' % (e.kind, e.name or ''), e.node)
+                    if not (isinstance(tgt, Sym) and params.get(tgt) == i
+                            and e.kind in ('mutate', 'setitem', 'delete')):
+                        s.deep.add(i)
                 # stores: values put into the state of a parameter
                 if e.kind == 'setitem':
                     cand = e.args[1:]          # the key is a hashable value
@@ -403,6 +424,14 @@ class Effects(object):
                                  else x, params) if isinstance(
                     x, (Sym, App, Coll, Tup, Obj, Bound, BoundB)) else set()
                       for x in args]
+                rs = ArgRoots(rs)
+                # an argument that is a container made in this call (only
+                # its members can belong to a parameter), or a parameter
+                # handed on as it is
+                rs.fresh = [isinstance(x, Obj) and p.heap[x.oid].kind in (
+                    'list', 'set', 'dict') for x in args]
+                rs.exact = [params.get(x) if isinstance(x, Sym) else None
+                            for x in args]
                 s.callsites.append((key, rs, e.node, f))
         # returned value
         if isinstance(sig, tuple) and sig[0] == 'ret':
@@ -460,6 +489,12 @@ class Effects(object):
                     for cs in self.callees(key):
                         for j, why in list(cs.mutates.items()):
                             if j < len(rs):
+                                shallow = j not in cs.deep
+                                if shallow and getattr(rs, 'fresh', None) \
+                                        and rs.fresh[j]:
+                                    # the callee only changes the container
+                                    # it is given, and that one is ours
+                                    continue
                                 for i in rs[j]:
                                     if i == -1:
                                         g = ('module/class level object '
@@ -474,6 +509,12 @@ class Effects(object):
                                             s.gwrites.append(g)
                                             changed = True
                                         continue
+                                    if not (shallow and getattr(
+                                            rs, 'exact', None) and
+                                            rs.exact[j] == i) and \
+                                            i not in s.deep:
+                                        s.deep.add(i)
+                                        changed = True
                                     if i not in s.mutates:
                                         s.mutates[i] = [
                                             'passes it to %s (parameter %s) '
